@@ -46,12 +46,18 @@ INIT_ENTRIES = ["mass.init", "density.init", "nsf.init", "xsf.init", "xsf.init_s
 # the documented reload=True option: "how many times" a group is initialised must not matter either
 RELOAD_ENTRIES = [e + "+reload" for e in INIT_ENTRIES if e != "xsf.init_spectral_lines"]
 CALCS = ["neutron_sld", "neutron_scattering", "xray_sld", "volume", "activation", "list", "emission_table",
-         "sld_table", "D2O_sld", "fasta", "xray_f0", "magnetic", "xray_n", "xray_N", "xray_all_fwd", "xray_all_rev"]
+         "sld_table", "D2O_sld", "fasta", "xray_f0", "magnetic", "xray_n", "xray_N", "xray_all_fwd", "xray_all_rev",
+         # secondary public routes to the same data (round 7): optional keywords, module-level functions,
+         # Formula methods, legacy entry points, printed tables
+         "activation_iaea", "abundance_fns", "activity_fn", "composite_sld", "D2O_match", "formula_methods",
+         "refraction", "from_atoms", "atom_methods", "xsf_sld_table", "edep_table", "comparison_tables",
+         "print_scattering", "cromermann", "volume_routes"]
 # calculators that are events only (too slow or redundant for the digest of every history)
-EVENT_ONLY_CALCS = ("xray_all_fwd", "xray_all_rev")
+EVENT_ONLY_CALCS = ("xray_all_fwd", "xray_all_rev", "comparison_tables", "edep_table", "xsf_sld_table",
+                    "print_scattering", "cromermann", "from_atoms", "activity_fn", "volume_routes")
 
 
-NO_TABLE_CALCS = ("D2O_sld", "fasta")
+NO_TABLE_CALCS = ("D2O_sld", "fasta", "print_scattering", "cromermann", "D2O_match")
 
 
 def zygote_prepare():
@@ -177,8 +183,7 @@ def group_values(table, group):
     elif group == "core":
         # what every table serves from core.py: names, symbols, charge and isotope lists, D/T aliases
         for el in table:
-            out.append([el.number, el.symbol, el.name, canon(el.ions), canon(el.isotopes),
-                        sorted(vars(el.ion).get("ionset", {})) and None])
+            out.append([el.number, el.symbol, el.name, canon(el.ions), canon(el.isotopes)])
             for iso in list(el)[:3]:
                 out.append([el.number, iso.isotope, canon(iso.ions), _get(iso, "symbol"), _get(iso, "name")])
         for atom in (table.D, table.T, table.Fe.ion[2], table.Fe[56].ion[2], table.D.ion[1]):
@@ -273,6 +278,84 @@ def calc(name, table, public):
             t = el.xray.sftable
             seen[el.number] = None if t is None else canon(t)
         return _h(sorted(seen.items()))
+    if name in ("activation_iaea", "abundance_fns", "activity_fn"):
+        from periodictable import activation
+        env = activation.ActivationEnvironment(fluence=1e13, Cd_ratio=10, fast_ratio=50)
+        if name == "abundance_fns":
+            # the two documented abundance sources, asked directly (elements only, so that nothing else loads the table)
+            return canon([[f(a) for a in (T.Au[197], T.Co[59], T.Na[23], T.Cl[37], T.Li[6])]
+                          for f in (activation.IAEA1987_isotopic_abundance, activation.NIST2001_isotopic_abundance)])
+        if name == "activity_fn":
+            r = activation.activity(T.Co[59], 1.0, env, 2.0, [0, 5])
+            return canon(sorted((k.daughter + "|" + k.reaction, v) for k, v in r.items()))
+        # natural elements and ions only: an explicit isotope would load the table through another path
+        out = []
+        for text in ("NaCl", "Au{3+}Cl3"):
+            s = activation.Sample(pt.formula(text, **kw), 5.0)
+            s.calculate_activation(env, exposure=2.0, rest_times=[0, 1],
+                                   abundance=activation.IAEA1987_isotopic_abundance)
+            out.append(sorted((repr(k.isotope) + "|" + k.daughter + "|" + k.reaction, v) for k, v in s.activity.items()))
+            out.append(s.decay_time(1e-3))
+        return canon(out)
+    if name == "composite_sld":
+        from periodictable import nsf
+        mats = [pt.formula("Gd2O3", **kw), pt.formula("D2O", **kw), pt.formula("SiO2", **kw)]
+        c1 = nsf.neutron_composite_sld(mats)                          # default wavelength
+        c2 = nsf.neutron_composite_sld(mats, wavelength=[0.7, 4.75])
+        import numpy as np
+        w = np.array([1.0, 12.5, 3.0])
+        return canon([c1(w, density=2.3), c2(w, density=2.3)])
+    if name == "D2O_match":
+        from periodictable import nsf
+        return canon([nsf.D2O_match(pt.formula("C3H4H[1]NO@1.29n", **kw)),
+                      nsf.D2O_match(pt.formula("C6H7H[1]5O6@1.5n", **kw), wavelength=2.0)])
+    if name == "formula_methods":
+        f = pt.formula("Gd[157]Fe{3+}O3@7", **kw)
+        g = pt.formula("CaCO3@2.7", **kw)
+        return canon([f.neutron_sld(wavelength=1.2), f.neutron_sld(energy=30.0), f.xray_sld(energy=8.0),
+                      g.neutron_sld(), g.xray_sld(wavelength=1.54)])
+    if name == "refraction":
+        from periodictable import xsf
+        f = pt.formula("Ni[58]O", **kw)
+        return canon([xsf.index_of_refraction(f, natural_density=6.67, energy=[8.0, 12.0]),
+                      xsf.mirror_reflectivity(f, density=6.67, energy=8.0, angle=[0.1, 0.3]),
+                      xsf.xray_sld(f, natural_density=6.67, wavelength=1.54)])
+    if name == "from_atoms":
+        from periodictable import nsf, xsf
+        return canon([nsf.neutron_sld_from_atoms({T.H: 2, T.O: 1}, density=1.0, wavelength=3.0),
+                      xsf.xray_sld_from_atoms({T.Si: 1, T.O: 2}, density=2.2, energy=8.0)])
+    if name == "atom_methods":
+        return canon([T.Fe.neutron.sld(), T.H[2].neutron.scattering(wavelength=2.0), T.Gd.neutron.sld(wavelength=1.0),
+                      T.Fe.xray.sld(energy=8.0), T.Fe[56].ion[2].xray.sld(wavelength=1.54),
+                      T.Ni.neutron.has_sld(), T.Fm.neutron.has_sld()])
+    if name in ("xsf_sld_table", "edep_table", "comparison_tables", "print_scattering"):
+        from periodictable import nsf, xsf
+        buf = io.StringIO()
+        old = sys.stdout
+        sys.stdout = buf
+        tb = None if public else T
+        try:
+            if name == "xsf_sld_table":
+                xsf.sld_table(wavelength=1.54, table=tb)
+            elif name == "edep_table":
+                nsf.energy_dependent_table(table=tb)
+            elif name == "print_scattering":
+                nsf.print_scattering("Gd2O3@7.4", wavelength=1.2)
+            else:
+                nsf.absorption_comparison_table(table=tb, tol=0.01)
+                nsf.coherent_comparison_table(table=tb, tol=0.01)
+                nsf.total_comparison_table(table=tb, tol=0.01)
+                nsf.incoherent_comparison_table(table=tb, tol=0.01)
+        finally:
+            sys.stdout = old
+        return _h(buf.getvalue()) + ":%d" % len(buf.getvalue())
+    if name == "cromermann":
+        from periodictable import cromermann
+        return canon([cromermann.fxrayatq("Fe2+", 1.0), cromermann.fxrayatq("O", [0.0, 2.0], charge=-2),
+                      cromermann.fxrayatstol("Ca2+", 0.1), cromermann.getCMformula("Na1+").atstol(0.2)])
+    if name == "volume_routes":
+        f = pt.formula("Fe{2+}O{2-}", **kw)
+        return canon([f.volume(), f.volume("bcc"), f.volume(packing_factor=0.6), f.volume(a=4.3, b=4.3, c=4.3, beta=100)])
     raise ValueError(name)
 
 
@@ -406,9 +489,56 @@ def do_event(w, ev):
     if kind == "formula":
         import periodictable as pt
         t = w.table(ev[2])
-        f = pt.formula(ev[1], table=t)
+        f = formula_route(pt, ev[1], t)
         return sorted(set(a.table for a in f.atoms))
     raise ValueError(kind)
+
+
+FORMULA_ROUTES = ["route:parse_formula", "route:mix_by_weight:str", "route:mix_by_volume:str", "route:mix_by_weight:obj",
+                  "route:mix_by_volume:obj", "route:mix_by_weight:obj-nokw", "route:mix_by_volume:obj-nokw",
+                  "route:clone", "route:clone-kw", "route:dict", "route:seq", "route:atom", "route:arith", "route:hill",
+                  "route:replace", "route:change_table", "route:nested-mixture"]
+
+
+def formula_route(pt, spec, t):
+    """A formula whose atoms must all belong to table *t*: formula(text, table=t), or one of the other public
+    ways of producing a formula on a given table (FORMULA_ROUTES)."""
+    if not spec.startswith("route:"):
+        return pt.formula(spec, table=t)
+    from periodictable import formulas
+    r = spec[6:]
+    if r == "parse_formula":
+        return formulas.parse_formula("Fe[56]{2+}2O{2-}3", table=t)
+    if r.startswith("mix_by_"):
+        fn = pt.mix_by_weight if r.startswith("mix_by_weight") else pt.mix_by_volume
+        how = r.split(":")[1]
+        if how == "str":
+            return fn("H2O@1", 2, "D2O@1n", 1, "Na{+}Cl{-}@2.16", 0.5, table=t)
+        comps = [pt.formula("H2O@1", table=t), pt.formula("D2O@1n", table=t), pt.formula("Na{+}Cl{-}@2.16", table=t)]
+        if how == "obj":
+            return fn(comps[0], 2, comps[1], 1, comps[2], 0.5, table=t)
+        return fn(comps[0], 2, comps[1], 1, comps[2], 0.5)
+    if r == "clone":
+        return pt.formula(pt.formula("CaCO[18]3+6H2O", table=t))
+    if r == "clone-kw":
+        return pt.formula(pt.formula("CaCO[18]3+6H2O", table=t), density=2.0, table=t)
+    if r == "dict":
+        return pt.formula({t.H: 2, t.O[18].ion[-2]: 1, t.D: 1})
+    if r == "seq":
+        return pt.formula([(1, t.Ca), (1, t.C), (3, t.O), (6, [(2, t.H[1]), (1, t.O.ion[-2])])])
+    if r == "atom":
+        return pt.formula(t.Fe[56].ion[2])
+    if r == "arith":
+        return 2 * pt.formula("NaCl", table=t) + pt.formula("D2O", table=t)
+    if r == "hill":
+        return pt.formula("OH2Fe[56]{2+}C", table=t).hill
+    if r == "replace":
+        return pt.formula("C3H4H[1]NO", table=t).replace(t.H[1], t.D, 0.5)
+    if r == "change_table":
+        return pt.formula("Fe[56]{2+}2O{2-}3+D{+}").change_table(t)
+    if r == "nested-mixture":
+        return pt.formula("20vol% (10 wt% NaCl@2.16 // H2O@1) // D2O@1n", table=t)
+    raise ValueError(spec)
 
 
 def mutate(obj, prop):
